@@ -10,6 +10,10 @@
 //!   sweep lo n step        compares with the independent i128 oracle of the SPECIFICATION on lo, lo+step, ...
 //!   rand  seed n           same on n pseudo-random in-range values (half uniform, half near powers of two)
 //!                          -> `1 count` all agree | `2 v tag got expected nfail` first disagreement
+//! float ops (validation of the translator's float emission; the float properties are C02's):
+//!   i2f <src> <32|64> v...     `0 bits` of to_sample::<f32|f64>()
+//!   f2i <32|64> <dst> bits...  `0 r` of f32|f64::to_sample::<dst>()
+//!   f2f <32|64> 0 bits...      `0 bits` of f32 -> f64 (32) / f64 -> f32 (64)
 //! 24/48-bit sources are built with `new_unchecked` (so out-of-range representation values can be fed too),
 //! results are read with `.inner()`.
 use dasp_sample::{FromSample, Sample, ToSample, I24, I48, U24, U48};
@@ -193,6 +197,44 @@ where
     }
 }
 
+fn c32(x: f32) -> i128 { if x.is_nan() { 0x7fc0_0000 } else { x.to_bits() as i128 } }
+fn c64(x: f64) -> i128 { if x.is_nan() { 0x7ff8_0000_0000_0000u64 as i128 } else { x.to_bits() as i128 } }
+
+fn fmt_res(r: Result<i128, i64>) -> String {
+    match r { Ok(v) => format!("0 {}", v), Err(k) => format!("8 {}", k) }
+}
+
+fn i2f<S>(f: i128, a: &[i128]) -> String
+where
+    S: Fmt + ToSample<f32> + ToSample<f64>,
+{
+    a.iter()
+        .map(|&v| fmt_res(catch(|| if f == 32 { c32(S::mk(v).to_sample::<f32>()) } else { c64(S::mk(v).to_sample::<f64>()) })))
+        .collect::<Vec<_>>()
+        .join(";")
+}
+
+fn f2i<D>(f: i128, a: &[i128]) -> String
+where
+    D: Fmt + FromSample<f32> + FromSample<f64>,
+{
+    a.iter()
+        .map(|&b| fmt_res(catch(|| if f == 32 { f32::from_bits(b as u32).to_sample::<D>().val() } else { f64::from_bits(b as u64).to_sample::<D>().val() })))
+        .collect::<Vec<_>>()
+        .join(";")
+}
+
+macro_rules! by_fmt {
+    ($c:expr, $f:ident, $x:expr, $a:expr) => {
+        match $c {
+            0 => $f::<i8>($x, $a), 1 => $f::<i16>($x, $a), 2 => $f::<I24>($x, $a), 3 => $f::<i32>($x, $a),
+            4 => $f::<I48>($x, $a), 5 => $f::<i64>($x, $a), 6 => $f::<u8>($x, $a), 7 => $f::<u16>($x, $a),
+            8 => $f::<U24>($x, $a), 9 => $f::<u32>($x, $a), 10 => $f::<U48>($x, $a), 11 => $f::<u64>($x, $a),
+            _ => "-1".to_string(),
+        }
+    };
+}
+
 macro_rules! by_dst {
     ($S:ty, $d:expr, $op:expr, $a:expr) => {
         match $d {
@@ -219,6 +261,18 @@ fn main() {
         let op = it.next().unwrap_or("");
         let t: Vec<i128> = it.map(|s| s.parse::<i128>().expect("int token")).collect();
         let (s, d, a) = (t[0], t[1], &t[2..]);
+        match op {
+            "i2f" => return by_fmt!(s, i2f, d, a),
+            "f2i" => return by_fmt!(d, f2i, s, a),
+            "f2f" => {
+                return a
+                    .iter()
+                    .map(|&b| fmt_res(catch(|| if s == 32 { c64(f32::from_bits(b as u32).to_sample::<f64>()) } else { c32(f64::from_bits(b as u64).to_sample::<f32>()) })))
+                    .collect::<Vec<_>>()
+                    .join(";")
+            }
+            _ => {}
+        }
         match s {
             0 => by_dst!(i8, d, op, a),
             1 => by_dst!(i16, d, op, a),
